@@ -146,6 +146,51 @@ func optionDiscs(c *hist.Case, run *hist.Run, m *hist.Model, r *evid.Rec, pre st
 					r.NonTrivial(fmt.Sprintf("live|%s|%d|%d|%v", subList(all), ti.QoS, maxQ, ti.Retain))
 				}
 			}
+		}
+		// (4) late deliveries of a live message: released by flow control, taken from the offline queue or resent after a
+		// reconnect. They are sent from the stored copy, which must carry what the live copy would have carried.
+		if !s.Skipped && s.A.Kind != "subscribe" {
+			for _, o := range s.Obs {
+				if o.P.Type != refmqtt.PUBLISH || o.P.Retain {
+					continue
+				}
+				tag := hist.TagOf(o.P.Payload)
+				ti := run.Tags[tag]
+				p := run.Peers[o.Peer]
+				if ti == nil || ti.Step == s.I || ti.Will || ti.Empty || p.BlindAt(s.I) {
+					continue
+				}
+				sn := m.Snaps[tag]
+				if sn == nil || hasSharedMatch(sn, p.CID, ti.Topic) {
+					continue
+				}
+				ms := sn.Entitled(ti.Topic, ti.CID, false)[p.CID]
+				if len(ms) == 0 {
+					continue // whether it should arrive at all is C03's / C09's subject
+				}
+				subMax := byte(0)
+				var ids []uint32
+				for _, st := range ms {
+					if st.Opts.QoS > subMax {
+						subMax = st.Opts.QoS
+					}
+					if st.SubID > 0 {
+						ids = append(ids, st.SubID)
+					}
+				}
+				r.Label("late-delivery-judged")
+				if wantQ := minB(ti.QoS, subMax, maxQ); o.P.QoS != wantQ {
+					ds = append(ds, evid.D(pre+"-late-delivered-qos", "step %d (%s): m%d published at QoS %d, %s matched %s at publish time, server maximum %d: delivered late at QoS %d, expected %d", s.I, s.A.Kind, tag, ti.QoS, p.CID, subList(ms), maxQ, o.P.QoS, wantQ))
+				}
+				if p.Version == 5 && idSet(o.P.Props.SubscriptionIDs) != idSet(ids) {
+					ds = append(ds, evid.D(pre+"-late-subscription-identifiers", "step %d (%s): m%d to %s, delivered after its publish step: identifiers %v, expected the set %v of the subscriptions %s that matched at publish time", s.I, s.A.Kind, tag, p.CID, o.P.Props.SubscriptionIDs, ids, subList(ms)))
+				}
+				if len(ids) > 0 {
+					r.NonTrivial(fmt.Sprintf("late|%s|%s|%v", s.A.Kind, subList(ms), ids))
+				}
+			}
+		}
+		switch {
 		case s.A.Kind == "subscribe" && !s.Skipped:
 			// (3) retained messages delivered in response to this SUBSCRIBE
 			p := run.Peers[s.Peer]
@@ -203,7 +248,7 @@ func optionDiscs(c *hist.Case, run *hist.Run, m *hist.Model, r *evid.Rec, pre st
 }
 
 func TestC04(t *testing.T) {
-	r := evid.New("C04", "rapid: C03-style histories with server MaximumQos in {0,1,2}, 1-3 overlapping filters per SUBSCRIBE with independent QoS / identifier (boundary-biased) / Retain As Published / Retain Handling, retained and non-retained publishes at QoS<=server maximum, later subscriptions that pick up retained messages, v3/v3.1.1/v5 receivers; oracle on the wire: SUBACK code = min(requested, server max); live QoS = min(published, max matching subscription QoS, server max); identifiers = set of identifiers of matching subscriptions; retain flag per RAP (asserted only when all matching subscriptions agree); retained replay: identifier of the SUBSCRIBE, QoS = min(message, subscription, server max); non-trivial = >=2 matching subscriptions, a QoS above the server maximum, or a retained replay to a subscription with identifier")
+	r := evid.New("C04", "rapid: C03-style histories with server MaximumQos in {0,1,2}, 1-3 overlapping filters per SUBSCRIBE with independent QoS / identifier (boundary-biased) / Retain As Published / Retain Handling, retained and non-retained publishes at QoS<=server maximum, later subscriptions that pick up retained messages, v3/v3.1.1/v5 receivers; one history in three instead has persistent sessions that go offline and return, Receive Maximum 1/2 and manual acknowledgements, so that messages are delivered late from the stored copy (released by flow control, offline queue, resend), judged against the subscriptions that matched at publish time; oracle on the wire: SUBACK code = min(requested, server max); live QoS = min(published, max matching subscription QoS, server max); identifiers = set of identifiers of matching subscriptions; retain flag per RAP (asserted only when all matching subscriptions agree); retained replay: identifier of the SUBSCRIBE, QoS = min(message, subscription, server max); non-trivial = >=2 matching subscriptions, a QoS above the server maximum, or a retained replay to a subscription with identifier")
 	defer r.Finish(t)
 	if evid.ReplayMode() {
 		evid.Replay(t, r, replayPath(), c04Check)
@@ -216,8 +261,25 @@ func TestC04(t *testing.T) {
 	g.Topics = []string{"a", "a/b", "b", "a/b/c"}
 	evid.Run(t, r, func(rt *rapid.T) *hist.Case {
 		mq := byte(rapid.IntRange(0, 2).Draw(rt, "maxqos"))
+		g := *g
 		g.PubQoS = []byte{0, 1, 2}[:mq+1]
+		late := mq > 0 && rapid.IntRange(0, 2).Draw(rt, "late-deliveries") == 0
+		if late {
+			// one history in three: persistent sessions that go offline and come back, small Receive Maximum and manual
+			// acknowledgements, so that messages are delivered from the stored copy
+			g.CleanStart, g.Expiry, g.RecvMax = []bool{false}, []uint32{100}, []uint16{0, 1, 2}
+			g.AutoAck = false
+			g.WDrop, g.WConnect, g.WAck = 2, 3, 4
+			g.PubQoS = []byte{1, 2}[:mq]
+			g.Retain = false
+		}
 		c := g.Draw(rt)
+		if late {
+			c.Cfg.ClientPIDBase = 1000 // identifier collisions between the directions are C10's subject
+			for cl := 0; cl < g.NClients; cl++ {
+				c.Actions = append(c.Actions, hist.Action{Kind: "drain", Client: cl})
+			}
+		}
 		c.Cfg.MaximumQos = &mq
 		r.Sample(append([]string{fmt.Sprintf("server MaximumQos=%d", mq)}, c.Summary()...))
 		return c
